@@ -583,21 +583,23 @@ package cose
 //@   loop 1 invariant bounds: 0 <= idx && idx <= len(value.([]any)) && value is []any
 //@   loop 1 invariant prefix: forall j Int :: 0 <= j && j < idx ==> (isIntKey(value.([]any)[j]) || value.([]any)[j] is string) && present(headers, value.([]any)[j])
 
-//@ spec isCsig(v any) Bool = v is *Countersignature || v is []*Countersignature
+// v holds a countersignature object: a non-nil *Countersignature or a non-empty list of them without nil entries
+//@ spec isCsigD(v any, EP AddrElems) Bool = (v is *Countersignature && v.(*Countersignature) != nil)
+//@       || (v is []*Countersignature && len(v.([]*Countersignature)) > 0 && (forall i Int :: 0 <= i && i < len(v.([]*Countersignature)) ==> ptrat(EP, v.([]*Countersignature), i) != nil))
 // the rule RFC 9052 section 3.1 attaches to the parameter with integer label l and value v in a bucket with key set D
-//@ spec RuleAtD(l Int, v any, D AnySet, EA AnyElems, prot Bool) Bool =
+//@ spec RuleAtD(l Int, v any, D AnySet, EA AnyElems, EP AddrElems, prot Bool) Bool =
 //@          (l == 1 ==> v is Algorithm || canIntV(v) || v is string)
 //@       && (l == 2 ==> prot && critOKD(v, D, EA))
 //@       && (l == 3 ==> ctOK(v)) && (l == 16 ==> ctOK(v))
 //@       && (l == 4 ==> v is []byte)
 //@       && (l == 5 ==> v is []byte && !has_int(D, 6))
 //@       && (l == 6 ==> v is []byte && !has_int(D, 5))
-//@       && (l == 7 ==> !prot && isCsig(v)) && (l == 11 ==> !prot && isCsig(v))
+//@       && (l == 7 ==> !prot && isCsigD(v, EP)) && (l == 11 ==> !prot && isCsigD(v, EP))
 //@       && (l == 9 ==> !prot && v is []byte) && (l == 12 ==> !prot && v is []byte)
 //@ spec uniqueD(D AnySet) Bool = forall k1 any, k2 any :: k1 in D && k2 in D && isIntKey(k1) && isIntKey(k2) && intOf(k1) == intOf(k2) ==> k1 == k2
-//@ spec RulesD(D AnySet, V AnyMap, EA AnyElems, prot Bool) Bool = (forall k any :: k in D ==> labelOK(k) && (isIntKey(k) ==> RuleAtD(intOf(k), V[k], D, EA, prot))) && uniqueD(D)
-//@ spec RuleAt(l Int, v any, h map[any]any, prot Bool) Bool = RuleAtD(l, v, mapdom(h), anyelems(), prot)
-//@ spec Rules(h map[any]any, prot Bool) Bool = RulesD(mapdom(h), mapval(h), anyelems(), prot)
+//@ spec RulesD(D AnySet, V AnyMap, EA AnyElems, EP AddrElems, prot Bool) Bool = (forall k any :: k in D ==> labelOK(k) && (isIntKey(k) ==> RuleAtD(intOf(k), V[k], D, EA, EP, prot))) && uniqueD(D)
+//@ spec RuleAt(l Int, v any, h map[any]any, prot Bool) Bool = RuleAtD(l, v, mapdom(h), anyelems(), addrelems(), prot)
+//@ spec Rules(h map[any]any, prot Bool) Bool = RulesD(mapdom(h), mapval(h), anyelems(), addrelems(), prot)
 //@ spec normKey(k any) any = isIntKey(k) ? any(int64(intOf(k))) : k
 
 //@ func validateHeaderParameters
@@ -1270,3 +1272,9 @@ package cose
 //@ func (ProtectedHeader).Critical
 //@   ensures ok [C06, C13]: result1 == nil && has(asmap(h), 2) ==> result0 != nil
 //@   modifies frame [C18]: nothing
+
+//@ func isCountersignatureValue
+//@   ensures iff [C05, C13]: result <==> isCsigD(v, addrelems())
+//@   modifies frame [C18]: nothing
+//@   loop 1 invariant bounds: 0 <= idx && idx <= len(v.([]*Countersignature)) && v is []*Countersignature && len(v.([]*Countersignature)) > 0
+//@   loop 1 invariant prefix: forall j Int :: 0 <= j && j < idx ==> ptrat(addrelems(), v.([]*Countersignature), j) != nil
